@@ -17,7 +17,8 @@ EXPLANATION = ("For every BaseSimObj subclass of the simulator core (Simulator, 
                "statement that consumes pending-work state (clearing the resolve flag, advancing the last-update period or the period "
                "counter, schedule history, pilot/rate matrices, network update) can execute in an iteration before the scheduler call, "
                "while the event pop and processing precede it; update_scheduler attaches a fresh Interface and copies max_recompute; the "
-               "resumption-critical simulator attributes are all dumped and restored.")
+               "resumption-critical simulator attributes are all dumped and restored."
+               " Added in round 3: JSON text keeps mapping insertion order (no sort_keys / object hooks), the whole attribute is dumped (no slice), the three protocol dictionaries are never passed in each other's place, constructors store every parameter under its own name and delegate to the parent constructor with like-named arguments.")
 NOT_DECIDED = ("equality of the resumed trajectory with the reference one; an interruption in the very last period (the queue is already "
                "empty, so the final iteration is not replayed); JSON-representability of user-supplied signals")
 
